@@ -160,6 +160,10 @@ class Ctx:
         os.rename(tmp, obj)
         return obj
 
+    def atomic_points(self):
+        """compiler flags that wrap every std::atomic of the library under test with a scheduling point (engine/vsched/atomic_points.hpp)"""
+        return ["-include", os.path.join(VERIF, "engine", "vsched", "atomic_points.hpp")]
+
     def vsched_obj(self):
         return self.build_obj("vsched", "engine/vsched/vsched.cpp")
 
